@@ -299,7 +299,9 @@ func cmdCheck(args []string) {
 	if err := generateHarnesses(*repo, *prop, genDir); err != nil {
 		fatal(fmt.Errorf("generator: %v", err))
 	}
-	ov, realFiles, err := overlayFrom(*repo, filepath.Join(verifDir, "harness"), genDir)
+	snapDir := filepath.Join(scratch, "harness")
+	os.MkdirAll(snapDir, 0o755)
+	ov, realFiles, err := overlayFrom(*repo, snapDir, filepath.Join(verifDir, "harness"), genDir)
 	if err != nil {
 		fatal(err)
 	}
@@ -713,7 +715,7 @@ func cmdReplay(args []string) {
 	if err := generateHarnesses(repo, rf.Property, genDir); err != nil {
 		fatal(err)
 	}
-	_, realFiles, err := overlayFrom(repo, filepath.Join(verifDir, "harness"), genDir)
+	_, realFiles, err := overlayFrom(repo, "", filepath.Join(verifDir, "harness"), genDir)
 	if err != nil {
 		fatal(err)
 	}
